@@ -163,18 +163,26 @@ type c20SizeViol struct {
 
 // the body of a record of length L for a decoder; position i (1-based) of the abstract record is byte i-1
 // flavour (non-JSON decoders): 0 = ASCII; 1, 2 = multi-byte UTF-8 text, so that for every limit some character straddles it
-// (the bytes at and right before the cut position are continuation bytes); 3 = binary (every byte >= 0x80)
+// (the bytes at and right before the cut position are continuation bytes); 3 = binary (every byte >= 0x80);
+// 4 = ASCII with upper-case letters (json: an upper-case key), so that any case folding of the record shows
 func c20Body(dec string, l int, flavour int) []byte {
 	b := make([]byte, l)
 	if dec != "json" {
-		switch flavour % 4 {
+		switch flavour % 5 {
+		case 4:
+			for i := range b {
+				b[i] = byte('A' + i)
+				if i%3 == 2 {
+					b[i] = byte('a' + i)
+				}
+			}
 		case 0:
 			for i := range b {
 				b[i] = byte('a' + i)
 			}
 		case 1, 2:
 			text := []byte(strings.Repeat("\u00e9\u20ac\U0001F600z", l/2+2)) // 2-, 3-, 4-byte characters and an ASCII letter
-			copy(b, text[flavour%4-1:])
+			copy(b, text[flavour%5-1:])
 		default:
 			for i := range b {
 				b[i] = byte(0x80 + (i*7)%0x40)
@@ -187,6 +195,9 @@ func c20Body(dec string, l int, flavour int) []byte {
 		copy(b, `{}`)
 	case l >= 7:
 		copy(b, `{"k":`)
+		if flavour%5 == 4 {
+			copy(b, `{"K":`)
+		}
 		for i := 5; i < l-1; i++ {
 			b[i] = byte('1' + (i-5)%9)
 		}
@@ -231,6 +242,26 @@ type c20SizeCfg struct {
 	m    int
 	cut  bool
 	mark bool
+	anti bool // antispam enabled (threshold never reached) with case-insensitive exception rules that get evaluated
+}
+
+// exceptions that are evaluated for every record and never exempt it: every mode, case-insensitive, also inverted
+func c20FoldingExceptions() antispam.Exceptions {
+	ci := func(m matchrule.Mode, v string, inv bool) matchrule.Rule {
+		return matchrule.Rule{Mode: m, Values: []string{v}, CaseInsensitive: true, Invert: inv}
+	}
+	never := matchrule.Rule{Mode: matchrule.ModeContains, Values: []string{"~~"}}
+	e := antispam.Exceptions{
+		{RuleSet: matchrule.RuleSet{Name: "c20ci1", Cond: matchrule.CondAnd, Rules: []matchrule.Rule{ci(matchrule.ModeContains, "~Q", false)}}},
+		{RuleSet: matchrule.RuleSet{Name: "c20ci2", Cond: matchrule.CondAnd, Rules: []matchrule.Rule{ci(matchrule.ModePrefix, "~Q", false)}}},
+		{RuleSet: matchrule.RuleSet{Name: "c20ci3", Cond: matchrule.CondAnd, Rules: []matchrule.Rule{ci(matchrule.ModeSuffix, "Q~", false)}}},
+		{RuleSet: matchrule.RuleSet{Name: "c20ci4", Cond: matchrule.CondAnd, Rules: []matchrule.Rule{ci(matchrule.ModeContains, "~Q", true), never}}},
+		{RuleSet: matchrule.RuleSet{Name: "c20ci5", Cond: matchrule.CondAnd, Rules: []matchrule.Rule{ci(matchrule.ModePrefix, "~Q", true), never}}},
+		{RuleSet: matchrule.RuleSet{Name: "c20ci6", Cond: matchrule.CondAnd, Rules: []matchrule.Rule{ci(matchrule.ModeSuffix, "Q~", true), never}}},
+		{RuleSet: matchrule.RuleSet{Name: "c20ci7", Cond: matchrule.CondAnd, Rules: []matchrule.Rule{ci(matchrule.ModeContains, "~", false)}}, CheckSourceName: true},
+	}
+	e.Prepare()
+	return e
 }
 
 func c20RunSizeGroup(id int, g c20SizeCfg, cases []*c20SizeCase, st *c20SizeStats) {
@@ -242,6 +273,10 @@ func c20RunSizeGroup(id int, g c20SizeCfg, cases []*c20SizeCase, st *c20SizeStat
 	}
 	if g.mark {
 		s.CutOffEventByLimitField = c20MarkField
+	}
+	if g.anti {
+		s.Antispam.Threshold = 1 << 30
+		s.Antispam.Exceptions = c20FoldingExceptions()
 	}
 	p, in, out := c20NewPipeline(fmt.Sprintf("c20size%d", id), s)
 	out.record = true
@@ -292,10 +327,18 @@ func c20RunSizeGroup(id int, g c20SizeCfg, cases []*c20SizeCase, st *c20SizeStat
 			probe.mu.Unlock()
 
 			data := append(make([]byte, 0, len(rec)+8), rec...)
-			seq := p.In(SourceID(1), "c20src", Offsets{current: int64(ci + 1)}, data, false, nil)
+			seq := p.In(SourceID(1), "c20Src", Offsets{current: int64(ci + 1)}, data, false, nil)
 			st.mu.Lock()
 			st.executed++
 			st.mu.Unlock()
+			// the caller's buffer: In may put the newline back right after a cut, everything before is the record
+			keep := len(rec)
+			if c.Over && c.Cut {
+				keep = c.M
+			}
+			if string(data[:keep]) != string(rec[:keep]) {
+				st.add(mk("input_buffer_altered", string(rec[:keep]), string(data[:keep])))
+			}
 			if seq == EventSeqIDError {
 				st.mu.Lock()
 				st.refused++
@@ -741,11 +784,13 @@ func TestVerifC20(t *testing.T) {
 				if c.Undec && dec != "probe" {
 					continue // only the probe decoder can be told to fail; raw never fails, json is observed
 				}
-				g := c20SizeCfg{dec: dec, m: c.M, cut: c.Cut, mark: c.Mark}
-				if _, ok := sizeGroups[g]; !ok {
-					sizeOrder = append(sizeOrder, g)
+				for _, anti := range []bool{false, true} {
+					g := c20SizeCfg{dec: dec, m: c.M, cut: c.Cut, mark: c.Mark, anti: anti}
+					if _, ok := sizeGroups[g]; !ok {
+						sizeOrder = append(sizeOrder, g)
+					}
+					sizeGroups[g] = append(sizeGroups[g], c)
 				}
-				sizeGroups[g] = append(sizeGroups[g], c)
 			}
 		} else {
 			c := &c20HistCase{}
